@@ -1505,7 +1505,7 @@ func vC18MutexWaiters(m *sync.Mutex) (int, bool) {
 // forced schedules: snapshots reach persist() in an arbitrary order, interleaved with later mutations
 func vC18CaseSched(t *testing.T, r *rand.Rand, out *vC18Out) { vC18CaseSchedWith(t, r, out, false) }
 
-// forced: all mutations first, then every snapshot's persist() started behind the gate, newest first
+// forced: a list on disk, a change and the call that takes it back, then every snapshot's persist() started behind the gate, newest first
 func vC18CaseSchedWith(t *testing.T, r *rand.Rand, out *vC18Out, forced bool) {
 	dir := vC18Dir(t)
 	cfg := vC18Cfg(r, dir)
@@ -1518,16 +1518,90 @@ func vC18CaseSchedWith(t *testing.T, r *rand.Rand, out *vC18Out, forced bool) {
 	var parts []string
 	var desc []any
 	done := 0
-	for done < nmut || len(pending) > 0 {
-		if done < nmut && (forced || len(pending) == 0 || r.Intn(2) == 0) {
-			op := vC18RandOp(r, pool)
-			ok, snap := vC18MutateLocked(b, op)
-			done++
-			if ok {
-				pending = append(pending, snap)
+	// the call that takes back what the last effective call did (A-B-A: the list returns to
+	// a content it had before — and that may be on disk — under a newer version)
+	var undo []vC18Op
+	entries := func() map[string]bool {
+		m, wild, _ := vC18Dump(b)
+		set := map[string]bool{}
+		for _, e := range m {
+			set[e] = true
+		}
+		for _, e := range wild {
+			set["*."+e] = true
+		}
+		return set
+	}
+	mutate := func(op vC18Op, isUndo bool) bool {
+		before := entries()
+		ok, snap := vC18MutateLocked(b, op)
+		if ok {
+			pending = append(pending, snap)
+			after := entries()
+			var added, removed []string
+			for e := range after {
+				if !before[e] {
+					added = append(added, e)
+				}
 			}
-			parts = append(parts, fmt.Sprintf("SMut (%s) %s %s", op.coq(), vC18List(snap.exact), vC18List(snap.wild)))
-			desc = append(desc, []any{"mutate", op.Kind, op.Keys, "snapshot", ok, snap.version})
+			for e := range before {
+				if !after[e] {
+					removed = append(removed, e)
+				}
+			}
+			sort.Strings(added)
+			sort.Strings(removed)
+			switch {
+			case isUndo:
+			case len(added) > 0 && len(removed) == 0:
+				undo = append(undo, vC18Op{"removebatch", added})
+			case len(removed) > 0 && len(added) == 0:
+				undo = append(undo, vC18Op{"setbatch", removed})
+			}
+		}
+		parts = append(parts, fmt.Sprintf("SMut (%s) %s %s", op.coq(), vC18List(snap.exact), vC18List(snap.wild)))
+		desc = append(desc, []any{"mutate", op.Kind, op.Keys, "snapshot", ok, snap.version, "takes back the previous change", isUndo})
+		return ok
+	}
+	persistNow := func(i int) {
+		snap := pending[i]
+		pending = append(pending[:i:i], pending[i+1:]...)
+		b.persist(snap)
+		parts = append(parts, fmt.Sprintf("SPersist %d", i))
+		desc = append(desc, []any{"persist", i, "version", snap.version})
+	}
+	if forced {
+		// something on disk first; then a change and the call that takes it back — the newest
+		// snapshot has the content of the file; then every persist() in flight, newest first
+		for try := 0; try < 20 && len(pending) == 0; try++ {
+			mutate(vC18RandOp(r, pool), false)
+		}
+		for len(pending) > 0 {
+			persistNow(0)
+		}
+		undo = nil
+		for try := 0; try < 20 && len(undo) == 0; try++ {
+			mutate(vC18RandOp(r, pool), false)
+		}
+		if len(undo) > 0 {
+			mutate(undo[len(undo)-1], true)
+			undo = undo[:len(undo)-1]
+		}
+		if r.Intn(2) == 0 {
+			mutate(vC18RandOp(r, pool), false)
+		}
+		done = nmut
+	}
+	for done < nmut || len(pending) > 0 {
+		if done < nmut && (len(pending) == 0 || r.Intn(2) == 0) {
+			done++
+			if len(undo) > 0 && r.Intn(3) == 0 {
+				op := undo[len(undo)-1]
+				undo = undo[:len(undo)-1]
+				mutate(op, true)
+				continue
+			}
+			mutate(vC18RandOp(r, pool), false)
 			continue
 		}
 		if len(pending) >= 2 && (forced || r.Intn(2) == 0) {
@@ -1572,11 +1646,7 @@ func vC18CaseSchedWith(t *testing.T, r *rand.Rand, out *vC18Out, forced bool) {
 		if r.Intn(3) == 0 {
 			i = len(pending) - 1 // newest first: the older ones must then be dropped
 		}
-		snap := pending[i]
-		pending = append(pending[:i:i], pending[i+1:]...)
-		b.persist(snap)
-		parts = append(parts, fmt.Sprintf("SPersist %d", i))
-		desc = append(desc, []any{"persist", i, "version", snap.version})
+		persistNow(i)
 	}
 	m1, wild1, _ := vC18Dump(b)
 	present, file := vC18ReadLocal(dir)
@@ -2761,8 +2831,9 @@ func TestVerifC18(t *testing.T) {
 	vC18RunScripts(t, out, vC18LoadCorpus(t), "corpus-")
 	// the fixed alphabet sweep (its own generator: the random stream below does not depend on it)
 	vC18CaseAlphabet(t, rand.New(rand.NewSource(18)), out)
-	// and three fixed schedules with every persist() in flight at once, newest first
-	for i, fr := 0, rand.New(rand.NewSource(1805)); i < 3; i++ {
+	// and fixed schedules with every persist() in flight at once, newest first, the newest
+	// snapshot as often as not equal in content to the file (A-B-A)
+	for i, fr := 0, rand.New(rand.NewSource(1805)); i < 5; i++ {
 		vC18CaseSchedWith(t, fr, out, true)
 	}
 	// random histories with refreshes that bring remote lists (side by side, about two seconds)
